@@ -340,10 +340,14 @@ def sym_duplicate_func(vc):
 
                 def KV(it_, a, k):
                     db = mk_kvfile(it_)
+                    db.ctor_args = (tuple(a), dict(k))
                     dbs_made.append(db)
                     return db
                 m.attrs['KVFile'] = UFunc('KVFile', KV, False)
                 tag = '[to_end=%s,%s]' % (to_end, mode)
+                # T6 (what is read back equals what was stored, for every cell type: datetimes with a fraction of a second or a zone,
+                # Decimals, tuples) is assumed for the store as it is created BY DEFAULT; another serializer is another contract
+                it.path.info['kv_check'] = lambda: all(d.ctor_args == ((), {}) for d in dbs_made)
 
                 def d_start(it, env, rd):
                     eq = rd.children['name'].t == src_name.t
@@ -381,6 +385,7 @@ def sym_duplicate_func(vc):
                         ok = len(ys) >= 1 and isinstance(ys[0].obj, GenObj) and fn_named(ys[0].obj, 'saver') and \
                             ys[0].obj.args[0] is r and len(dbs_made) >= 1 and ys[0].obj.args[1] is dbs_made[-1]
                         check(it, 'original-goes-through-the-saver' + tag, ok)
+                        check(it, 'the-copy-is-kept-in-a-store-with-the-default-lossless-serializer' + tag, it.path.info['kv_check']())
                         if not to_end:
                             ok2 = len(ys) == 2 and isinstance(ys[1].obj, GenObj) and fn_named(ys[1].obj, 'loader') and \
                                 ys[1].obj.args[0] is dbs_made[-1]
@@ -390,6 +395,7 @@ def sym_duplicate_func(vc):
                                   len([e for e in events if e.kind == 'Append']) == 1)
                     cover(it, 'stream-iter-reachable' + tag)
                 it.loops['traverse_resources#L0'] = LoopSpec(at_start=d_start, at_end=d_end)
+                it.loops['traverse_resources#L1'] = LoopSpec()      # (the deferred descriptors are re-yielded: nothing claimed per iteration)
                 it.loops['func#L0'] = LoopSpec(at_start=s_start, at_end=s_end)
                 it.run_generator(it.call(func, [package]))
             paths = vc.explore(fk, thunk, min_paths=2, inline={'duplicate.<locals>.func.<locals>.traverse_resources'})
@@ -719,6 +725,28 @@ def nat_duplicate_aliasing(h):
 
 from contracts import C10 as _K10   # noqa: E402  (ResourceMatcher: the contract every selector-taking step is checked against)
 
+def nat_duplicate_value_kinds(h):
+    """bounded: the copy made by duplicate equals the original cell by cell, TYPE by type: datetimes with a fraction of a second or a
+    zone, times, Decimals of several exponents, nested arrays / objects, booleans next to integers, empty strings, long texts"""
+    import datetime, decimal
+    from dataflows import Flow, duplicate
+    tz = datetime.timezone(datetime.timedelta(hours=-5))
+    rows = [{'ts': datetime.datetime(2020, 1, 2, 3, 4, 5, 678901), 'aware': datetime.datetime(2020, 1, 2, 10, 30, tzinfo=tz),
+             't': datetime.time(3, 4, 5, 250000), 'd': datetime.date(2020, 2, 29), 'dec': decimal.Decimal('1.50'), 'n': 7, 'b': True,
+             's': '', 'big': 'x' * 5000, 'arr': [1, 'a', None, [2]], 'obj': {'k': {'m': 1.5}}},
+            {'ts': datetime.datetime(1999, 12, 31, 23, 59, 59, 1), 'aware': datetime.datetime(2020, 6, 1, 0, 0, 0, 7, tzinfo=datetime.timezone.utc),
+             't': datetime.time(0, 0), 'd': datetime.date(1, 1, 1), 'dec': decimal.Decimal('-2E+3'), 'n': 0, 'b': False,
+             's': ' é ', 'big': '', 'arr': [], 'obj': {}}]
+    for to_end in (False, True):
+        for bs in (1, 1000):
+            got = h.run(lambda: Flow([dict(r) for r in rows], duplicate('res_1', batch_size=bs, duplicate_to_end=to_end)).results(on_error=None)[0])
+            ok = got[0] == 'ok' and len(got[1]) == 2 and all(
+                a == b and all(type(a[k]) is type(b[k]) and repr(a[k]) == repr(b[k]) for k in a) for a, b in zip(got[1][0], got[1][1])) \
+                and len(got[1][0]) == len(rows) == len(got[1][1])
+            h.check(ok, P + 'duplicate.py::loader', (to_end, bs), 'copy == original, cell by cell and type by type',
+                    [(k, repr(a[k]), repr(b[k])) for a, b in zip(got[1][0], got[1][1]) for k in a if repr(a[k]) != repr(b[k])] if got[0] == 'ok' else got[:2])
+
+
 def nat_duplicate_row_shapes(h):
     """bounded: duplicate of a resource whose rows are keyed in ANOTHER order than its schema lists the fields (after a select /
     concatenate / a custom row step), or lack a declared field: the copy has the same rows as the original, field by field"""
@@ -756,7 +784,7 @@ ITEMS = [
     Item('concatenate.concatenator', sym_concatenator, [], P + 'concatenate.py::concatenator'),
     Item('concatenate.func', sym_concatenate_func, [], P + 'concatenate.py::concatenate.func'),
     Item('duplicate.func', sym_duplicate_func, [], P + 'duplicate.py::duplicate.func'),
-    Item('duplicate.saver', sym_saver, [('row-shapes', nat_duplicate_row_shapes)], P + 'duplicate.py::saver'),
+    Item('duplicate.saver', sym_saver, [('row-shapes', nat_duplicate_row_shapes), ('value-kinds', nat_duplicate_value_kinds)], P + 'duplicate.py::saver'),
     Item('iterable_loader.naming', BA.sym_iterable_loader_naming, [], 'dataflows/helpers/iterable_loader.py::iterable_loader.process_datapackage'),
     Item('delete_resource.func', K10.sym_delete_resource, [], P + 'delete_resource.py::delete_resource.func'),
     Item('appenders', sym_appenders, [], 'dataflows/helpers/iterable_loader.py::iterable_loader.process_resources'),
